@@ -86,6 +86,12 @@ pub struct GenCfg {
     pub const_into_str: bool,
     pub min_variants: usize,
     pub phf: bool,
+    /// C12 / C16: most variants carry a case-insensitivity flag
+    pub ci_heavy: bool,
+    /// identifiers are taken from this list first (C07)
+    pub idents: Vec<String>,
+    /// payload types must be Sync (values of a `static` phf map)
+    pub sync_only: bool,
 }
 
 pub const DEFAULTABLE: &[FieldTy] = &[
@@ -318,13 +324,14 @@ pub fn gen_string(rg: &mut Rg, cfg: &GenCfg) -> EnumSpec {
     // enum-level attributes
     let mut eattrs = Vec::new();
     let style = match &cfg.force_style {
+        Some(s) if s == "__none__" => None,
         Some(s) => Some(s.clone()),
         None => pick_style(rg),
     };
     if let Some(s) = &style {
         eattrs.push(EAttr::SerializeAll(s.clone()));
     }
-    if cfg.allow_ci && rg.chance(1, 3) {
+    if cfg.allow_ci && (rg.chance(1, 3) || (cfg.ci_heavy && rg.chance(1, 3))) {
         eattrs.push(EAttr::Ci);
     }
     if cfg.allow_prefix && rg.chance(1, 2) {
@@ -349,6 +356,11 @@ pub fn gen_string(rg: &mut Rg, cfg: &GenCfg) -> EnumSpec {
     let n = rg.weighted(&[(1, 0usize), (1, 1), (3, 2), (4, 3), (4, 4), (3, 5), (2, 6), (1, 7), (1, 8)]).min(cfg.max_variants).max(cfg.min_variants);
     let mut idents: Vec<&str> = IDENTS.to_vec();
     rg.shuffle(&mut idents);
+    if !cfg.idents.is_empty() {
+        let mut first: Vec<&str> = cfg.idents.iter().map(|s| s.as_str()).collect();
+        first.extend(idents.iter().copied().filter(|i| !cfg.idents.iter().any(|c| c == i)));
+        idents = first;
+    }
     let mut stems: Vec<&str> = if cfg.plain_literals {
         STEMS.iter().copied().filter(|s| s.chars().all(|c| c.is_ascii_alphanumeric() || c == ' ' || c == '-' || c == '_')).collect()
     } else {
@@ -379,7 +391,11 @@ pub fn gen_string(rg: &mut Rg, cfg: &GenCfg) -> EnumSpec {
         if want_default {
             default_used = true;
             v.kind = if rg.chance(2, 3) || !cfg.allow_fields { Kind::Tuple } else { Kind::Named };
-            let ty = *rg.pick(&[FieldTy::Str, FieldTy::Str, FieldTy::BoxStr, FieldTy::RcStr, FieldTy::ArcStr, FieldTy::Wrap]);
+            let mut ty = *rg.pick(&[FieldTy::Str, FieldTy::Str, FieldTy::BoxStr, FieldTy::RcStr, FieldTy::ArcStr, FieldTy::Wrap]);
+            if cfg.sync_only && ty == FieldTy::RcStr {
+                // the phf map is a `static`, its values must be Sync (a language rule, not strum's)
+                ty = FieldTy::ArcStr;
+            }
             v.fields = vec![FieldSpec { name: if v.kind == Kind::Named { Some("inner".into()) } else { None }, ty, default_with: false }];
             attrs.push(VAttr::Default);
         } else if want_transparent {
@@ -421,6 +437,8 @@ pub fn gen_string(rg: &mut Rg, cfg: &GenCfg) -> EnumSpec {
             && !want_transparent
             && !v.fields.is_empty()
             && v.fields.iter().all(|f| !matches!(f.ty, FieldTy::Gen | FieldTy::Phantom | FieldTy::RefStr))
+            // format! itself rejects raw identifiers inside placeholders
+            && v.fields.iter().all(|f| !f.name.as_deref().unwrap_or("").starts_with("r#"))
             && rg.chance(1, 2);
         if placeholders {
             let l = placeholder_lit(rg, v.kind, &v.fields);
@@ -456,7 +474,7 @@ pub fn gen_string(rg: &mut Rg, cfg: &GenCfg) -> EnumSpec {
         if cfg.allow_disabled && !want_default && rg.chance(1, 6) {
             attrs.push(VAttr::Disabled);
         }
-        if cfg.allow_ci && rg.chance(1, 3) {
+        if cfg.allow_ci && (rg.chance(1, 3) || (cfg.ci_heavy && rg.chance(1, 2))) {
             attrs.push(VAttr::Ci(*rg.pick(&[None, None, Some(true), Some(false), Some(false)])));
         }
         let _ = &mut keep_order;
